@@ -513,7 +513,27 @@ func ite(c, a, b string) string {
 
 func sel(m, i string) string       { return "(select " + m + " " + i + ")" }
 func sto(m, i, v string) string    { return "(store " + m + " " + i + " " + v + ")" }
-func eq(a, b string) string        { return "(= " + a + " " + b + ")" }
+func eq(a, b string) string {
+	if a == b {
+		return "true"
+	}
+	if isNumLit(a) && isNumLit(b) {
+		return "false"
+	}
+	return "(= " + a + " " + b + ")"
+}
+
+func isNumLit(s string) bool {
+	if s == "" {
+		return false
+	}
+	for _, c := range s {
+		if c < '0' || c > '9' {
+			return false
+		}
+	}
+	return true
+}
 func app(f string, args ...string) string {
 	if len(args) == 0 {
 		return f
